@@ -92,7 +92,7 @@ def tyOf (t : IrTy) : Option CTy :=
 /-- `F::NUM_BITS.div_ceil(8)`: bytes of a native field element. -/
 def nativeBytes : Nat := (Nat.log2 fqModulus + 1 + 7) / 8
 
-/-- `n as u32` of a `usize`. -/
+/-- `n as u32` of a `usize` (used by the PINNED guard only, see `intoBytesInPinned`). -/
 def asU32 (n : Nat) : Nat := n % 2 ^ 32
 
 /-! ### The guards of the two sides -/
@@ -101,10 +101,11 @@ def asU32 (n : Nat) : Nat := n % 2 ^ 32
 def loadable (t : IrTy) : Bool := !(t.tag == 3 && t.payload.getD 0 == 0)
 
 /-- `into_bytes.rs: IrValue::into_bytes`, `Native` arm, on the value `v`:
-`n as u32 > NUM_BITS.div_ceil(8) || bytes[n..].iter().any(|b| b != 0)` — the slice panics when the
-truncated guard lets an `n` above 32 through. -/
+`n as u64 > NUM_BITS.div_ceil(8) as u64 || bytes[n..].iter().any(|b| b != 0)` — `bytes` is the
+32-byte array of `to_bytes_le`: the slice would panic for an `n` above 32 that the guard let
+through (it does not: `nativeBytes = 32`, see `compile_never_panics`). -/
 def intoBytesNativeOff (n v : Nat) : Except CErr CTy :=
-  if asU32 n > nativeBytes then .error .convert
+  if n > nativeBytes then .error .convert
   else if n > 32 then .error .panic
   else if v / 256 ^ n ≠ 0 then .error .convert
   else .ok (.bytes n)
@@ -114,13 +115,19 @@ the off-circuit conversion runs only on a KNOWN value (`Value::map_with_result`)
 value `assigned_to_le_bytes(x, Some(n))` panics for `n > 32`. -/
 def intoBytesIn (n : Nat) : CTy → Except CErr CTy
   | .native v =>
-    if asU32 n > nativeBytes then .error .unsupported
+    if n > nativeBytes then .error .unsupported
     else match v with
       | some v => intoBytesNativeOff n v
       | none => if n > 32 then .error .panic else .ok (.bytes n)
   | .big => .ok (.bytes n)
   | .point => if n = 32 then .ok (.bytes 32) else .error .unsupported
   | _ => .error .unsupported
+
+/-- The guard as it was on the PINNED tree (before the repair `af7577a`): `n as u32 > ..`, on the
+unknown-value path. Kept only for the theorem `pinned_into_bytes_guard_truncated`. -/
+def intoBytesInPinned (n : Nat) : Except CErr CTy :=
+  if asU32 n > nativeBytes then .error .unsupported
+  else if n > 32 then .error .panic else .ok (.bytes n)
 
 /-- The static part of `from_bytes.rs: IrValue::from_bytes` / `from_bytes_incircuit` (the two
 `match` statements have the same guards): target type, length of the byte array. -/
